@@ -20,6 +20,221 @@ def digraph_req(H, idx):
     return dict(op="perc", n=H.order(), succ=[[idx[v] for v in H.successors(u)] if H.is_directed() else [idx[v] for v in H.neighbors(u)] for u in H])
 
 
+def generated_model(ctx):
+    import EoN.simulation as sim
+    """the Lean code GENERATED from the source of the percolation builders and estimators (harness/pyperc2lean.py ->
+    Gen/PercGen.lean: _out/_in_component_, estimate_SIR_prob_size_from_dir_perc, the three percolated-network builders,
+    the four estimate_* wrappers, get_infected_nodes), run by its own driver on the same graphs, scripted draws and
+    time-function answers as the implementation.  networkx's routines are instantiated with the Lean reachability
+    model; the generator order of strongly_connected_components is read off the real networkx.  Compared: RNG-call
+    trace, sequence of time-function calls, the percolated graph (node order, attributes, edge set), the returned
+    pairs / node sets, the exception kind."""
+    import fcntl, subprocess, os, json, pyperc2lean, pydisc2lean, EoN
+    lean = common.LEAN
+    os.makedirs(os.path.join(lean, ".audit"), exist_ok=True)
+    with open(os.path.join(lean, ".audit", "gengill.lock"), "w") as lock:
+        fcntl.flock(lock, fcntl.LOCK_EX)
+        try:
+            _, e1 = pydisc2lean.regenerate()
+            _, e2 = pyperc2lean.regenerate()
+            errors = dict({k: v for k, v in e1.items() if k == "discrete wrappers"}, **e2)
+        except Exception as e:
+            errors = {"translator": "crashed: %r" % e}
+        if errors:
+            ctx.disagreement("generated-perc:translation", dict(entry="percolation estimators", errors=errors))
+            return
+        p = common.lake(["build", "driverperc"])
+    if p.returncode != 0:
+        ctx.disagreement("generated-perc:build", dict(entry="percolation estimators", log="\n".join(
+            l for l in (p.stdout + p.stderr).splitlines() if "error" in l)[:1500]))
+        return
+    r = ctx.rng
+    reqs, metas = [], []
+
+    def er(x):
+        return "inf" if x == float("inf") else rs(fr(x))
+
+    def attempt(f):
+        try:
+            return dict(ok=True, val=f())
+        except Exception as e:
+            return dict(ok=False, err=sims.err_enum(e), exc=type(e).__name__)
+
+    def sccs_of(H, idx):
+        return [[idx[u] for u in list(c)] for c in nx.strongly_connected_components(H)]
+
+    def dig_out(H, idx, dur=True, delay=True):
+        return dict(nodes=[[idx[u], (er(d["duration"]) if "duration" in d else None)] for u, d in H.nodes(data=True)],
+                    edges=sorted([idx[u], idx[v], (er(d["delay_to_infection"]) if "delay_to_infection" in d else None)] for u, v, d in H.edges(data=True)))
+
+    class TimeRules(allsims.Rules):
+        def __init__(self, case, lab, idx):
+            super().__init__(case, lab, idx)
+            self.asked, self.vals = [], []
+
+        def trans_time(self, u, v):
+            x = super().trans_time(u, v)
+            self.asked.append([0, self.idx[u], self.idx[v]]); self.vals.append(er(x))
+            return x
+
+        def rec_time(self, u):
+            x = super().rec_time(u)
+            self.asked.append([1, self.idx[u]]); self.vals.append(er(x))
+            return x
+
+    # --- the core estimator on arbitrary digraphs
+    for _ in range(ctx.scale(300, 2000)):
+        H = gen.random_graph(r, 1, 9, directed=True)
+        idx = gen.index_of(H)
+        rep = dict(entry="estimate_SIR_prob_size_from_dir_perc", stream="generated-model", n=H.order(), edges=[[idx[u], idx[v]] for u, v in H.edges()])
+        out = attempt(lambda: EoN.estimate_SIR_prob_size_from_dir_perc(H))
+        reqs.append(dict(op="dirperc", succ=[[idx[v] for v in H.successors(u)] for u in H], sccs=sccs_of(H, idx)))
+        metas.append((rep, "pair", out, None, None))
+    # --- builders and wrappers
+    for _ in range(ctx.scale(700, 4000)):
+        which = r.choice(["timing", "timing_est", "xizeta", "xizeta_est", "directed", "directed_est", "bond", "infected", "infected"])
+        c = sims.graph_case(r, 1, 8, directed=(which not in ("bond",) and r.random() < 0.3))
+        G, lab = sims.build_graph(c)
+        idx = gen.index_of(G)
+        contact = dict(adj=gen.adj_lists(G, idx), edges=[[idx[u], idx[v]] for u, v in G.edges()])
+        tr = rngmod.TapeRandom(rng=r, idx=idx)
+        rep = dict(entry="generated:" + which, stream="generated-model", graph=c)
+        rules = None
+        captured = {}
+        if which in ("timing", "timing_est"):
+            cc = dict(c, sim="fast_nonMarkov_SIR")
+            ed = [(u, v) for u, v in c["edges"]] + ([] if c["directed"] else [(v, u) for u, v in c["edges"]])
+            cc["dur"] = [str(r.choice(allsims.DELAYS)) for _ in range(c["n"])]
+            cc["delay"] = [[u, v, str(r.choice(allsims.DELAYS))] for u, v in ed]
+            rules = TimeRules(cc, lab, idx)
+            rep["tables"] = dict(dur=cc["dur"], delay=cc["delay"])
+            if which == "timing":
+                weights = r.random() < 0.6
+                out = attempt(lambda: EoN.nonMarkov_directed_percolate_network_with_timing(G, rules.trans_time, rules.rec_time, weights=weights))
+                rq, kind = dict(contact, op="timing", weights=weights), "H"
+            else:
+                orig = sim.nonMarkov_directed_percolate_network_with_timing
+                sim.nonMarkov_directed_percolate_network_with_timing = lambda *a, **k: captured.setdefault("H", orig(*a, **k))
+                try:
+                    out = attempt(lambda: EoN.estimate_nonMarkov_SIR_prob_size_with_timing(G, rules.trans_time, rules.rec_time))
+                finally:
+                    sim.nonMarkov_directed_percolate_network_with_timing = orig
+                rq, kind = dict(contact, op="timing_est"), "pair"
+        elif which in ("xizeta", "xizeta_est"):
+            xi = {u: r.randrange(4) for u in G}
+            zeta = {u: r.randrange(4) for u in G}
+            thr = r.randrange(1, 6)
+            rep.update(xi=[xi[u] for u in G], zeta=[zeta[u] for u in G], thr=thr)
+            transmission = lambda x, z: x + z >= thr
+            if which == "xizeta":
+                out = attempt(lambda: EoN.nonMarkov_directed_percolate_network(G, xi, zeta, transmission))
+                kind = "H"
+            else:
+                orig = sim.nonMarkov_directed_percolate_network
+                sim.nonMarkov_directed_percolate_network = lambda *a, **k: captured.setdefault("H", orig(*a, **k))
+                try:
+                    out = attempt(lambda: EoN.estimate_nonMarkov_SIR_prob_size(G, xi, zeta, transmission))
+                finally:
+                    sim.nonMarkov_directed_percolate_network = orig
+                kind = "pair"
+            rq = dict(contact, op="xizeta", estimate=(which == "xizeta_est"), xi=[str(xi[u]) for u in G], zeta=[str(zeta[u]) for u in G], thr=str(thr))
+        elif which in ("directed", "directed_est"):
+            tau, gamma = r.choice(gen.RATES), r.choice(gen.RATES)
+            rep.update(tau=str(tau), gamma=str(gamma))
+            if which == "directed":
+                weights = r.random() < 0.6
+                with rngmod.scripted(tr):
+                    out = attempt(lambda: EoN.directed_percolate_network(G, float(tau), float(gamma), weights=weights))
+                rq, kind = dict(contact, op="directed", estimate=False, weights=weights, tau=str(tau), gamma=str(gamma)), "H"
+            else:
+                orig = sim.directed_percolate_network
+                sim.directed_percolate_network = lambda *a, **k: captured.setdefault("H", orig(*a, **k))
+                try:
+                    with rngmod.scripted(tr):
+                        out = attempt(lambda: EoN.estimate_directed_SIR_prob_size(G, float(tau), float(gamma)))
+                finally:
+                    sim.directed_percolate_network = orig
+                rq, kind = dict(contact, op="directed", estimate=True, tau=str(tau), gamma=str(gamma)), "pair"
+        elif which == "bond":
+            p_ = r.choice([F(0), F(1, 4), F(1, 2), F(3, 4), F(1)])
+            rep["p"] = str(p_)
+            with rngmod.scripted(tr):
+                out = attempt(lambda: EoN.estimate_SIR_prob_size(G, float(p_)))
+            rq, kind = dict(contact, op="bond", p=str(p_)), "pair"
+        else:
+            tau, gamma = r.choice(gen.RATES), r.choice(gen.RATES)
+            nodes = list(range(c["n"]))
+            style = r.choice(["none", "single", "list", "list", "overlap"])
+            kw, infs_w, recs_w = {}, None, None
+            if style == "single":
+                i = r.choice(nodes)
+                kw["initial_infecteds"], infs_w = lab(i), idx[lab(i)]
+            elif style in ("list", "overlap"):
+                ii = r.sample(nodes, r.randint(1, min(3, c["n"])))
+                kw["initial_infecteds"], infs_w = [lab(i) for i in ii], [idx[lab(i)] for i in ii]
+            rk = r.choice(["none", "single", "list"])
+            pool = nodes if style == "overlap" else [i for i in nodes if infs_w is None or (idx[lab(i)] != infs_w and idx[lab(i)] not in (infs_w if isinstance(infs_w, list) else []))]
+            if rk == "single" and pool and len(pool) < c["n"] + (style == "overlap"):
+                i = r.choice(pool)
+                kw["initial_recovereds"], recs_w = lab(i), idx[lab(i)]
+            elif rk == "list" and pool:
+                jj = r.sample(pool, r.randint(1, min(2, len(pool))))
+                if style == "none" and len(jj) == c["n"]:
+                    jj = jj[:-1]              # keep one node available for the default draw
+                if jj:
+                    kw["initial_recovereds"], recs_w = [lab(i) for i in jj], [idx[lab(i)] for i in jj]
+            if style == "none" and recs_w is not None and (c["n"] == 1 or (isinstance(recs_w, list) and len(recs_w) >= c["n"])):
+                kw.pop("initial_recovereds", None); recs_w = None
+            rep.update(tau=str(tau), gamma=str(gamma), infs=infs_w, recs=recs_w)
+            with rngmod.scripted(tr):
+                out = attempt(lambda: EoN.get_infected_nodes(G, float(tau), float(gamma), **kw))
+            rq, kind = dict(contact, op="infected", tau=str(tau), gamma=str(gamma), infs=infs_w, recs=recs_w), "nodes"
+        rq["tape"] = tr.log
+        if rules is not None:
+            rq["vals"] = rules.vals
+        if kind == "pair" and "H" in captured:
+            rq["sccs"] = sccs_of(captured["H"], idx)
+        rep["tape"] = tr.log
+        reqs.append(rq)
+        metas.append((rep, kind, out, sims.enc_trace(tr.trace, idx), (rules, idx)))
+        ctx.count("generated-model:" + which)
+    exe = os.path.join(lean, ".lake", "build", "bin", "driverperc")
+    data = "\n".join(json.dumps(q, separators=(",", ":")) for q in reqs) + "\n"
+    q = subprocess.run([exe], input=data, capture_output=True, text=True)
+    lines = q.stdout.splitlines()
+    if q.returncode != 0 or len(lines) != len(reqs):
+        raise RuntimeError("driverperc crashed: " + q.stderr[-1000:])
+    for (rep, kind, out, trace, extra), line in zip(metas, lines):
+        g = json.loads(line)
+        ctx.traces += 1
+        ctx.case(rep, nontrivial=bool(out.get("ok")))
+        d = []
+        if not out["ok"] or not g.get("ok"):
+            ierr = None if out["ok"] else out["err"]
+            gerr = None if g.get("ok") else g.get("err")
+            if ierr != gerr and not (ierr and gerr and ierr.startswith("other:") and gerr == ierr[6:]):
+                d.append("exception: impl %s (%s), generated %s" % (ierr, out.get("exc"), gerr))
+        else:
+            if trace is not None and g["trace"] != trace:
+                d.append("RNG trace")
+            if g["unused"]:
+                d.append("draws not consumed")
+            if extra is not None and extra[0] is not None and (g["calls"] != extra[0].asked or g["vals_left"]):
+                d.append("time-function calls")
+            if kind == "pair":
+                if [float(F(x)) for x in g["pair"]] != [float(out["val"][0]), float(out["val"][1])]:
+                    d.append("pair: impl %s generated %s" % (list(out["val"]), g["pair"]))
+            elif kind == "H":
+                want = dig_out(out["val"], extra[1])
+                if g["H"]["nodes"] != want["nodes"] or sorted(g["H"]["edges"], key=str) != sorted(want["edges"], key=str):
+                    d.append("percolated graph")
+            elif kind == "nodes":
+                if sorted(g["nodes"]) != sorted(extra[1][u] for u in out["val"]):
+                    d.append("infected nodes")
+        if d:
+            ctx.disagreement("generated-perc:" + ";".join(d)[:300], dict(rep, diffs=d, generated={k: g.get(k) for k in ("pair", "H", "nodes", "err")}))
+
+
 def run(ctx):
     import EoN, EoN.simulation as sim
     drv = common.LeanDriver()
@@ -185,3 +400,4 @@ def run(ctx):
                           dict(rep, result=[pe, ar], allowed=m["allowed"]))
         elif flag == "same" and pe != ar:
             ctx.violation("estimate_SIR_prob_size must return the largest-component fraction for both outputs", dict(rep, result=[pe, ar]))
+    generated_model(ctx)
